@@ -104,7 +104,7 @@ From J1939P Require NoOversleep NoOversleep22.
 Theorem C06_job_thread_never_sleeps_past_a_deadline : forall n now,
   tnodup (n_rcv n) -> tnodup (n_snd n) ->
   match flat (dll_job n now (fun n' nw' => Done n' nw')) with
-  | (n', _, RDone nw') => nw' <= now + 5000000 /\ n_timers n' = n_timers n /\
+  | (n', _, RDone nw') => nw' <= now + 5000000 /\ NoOversleep.tm_part n' = NoOversleep.tm_part n /\
                           NoOversleep.rcv_covered n' nw' /\ NoOversleep.snd_covered n' nw'
   | (_, _, RRaise _) => True
   end.
